@@ -5,7 +5,7 @@ literals and punctuators; directives #define (object-like and function-like, no 
 Cross-validated during development against `cpp -P` (gcc) on the fixed corpus and on 5000 generated
 translation units (identical token sequences on every unit gcc accepts)."""
 import re
-TOK = re.compile(r'\s*("([^"\\]|\\.)*"|[A-Za-z_][A-Za-z_0-9]*|\.?[0-9]([eEpP][+-]|[A-Za-z_0-9.])*|##|#|<<=|>>=|<<|>>|<=|>=|==|!=|&&|\|\||\+\+|--|->|\+=|-=|\*=|/=|%=|&=|\|=|\^=|\.\.\.|[-+*/%&|^~!<>=?:;,.(){}\[\]])')
+TOK = re.compile(r'\s*("([^"\\]|\\.)*"|\'([^\'\\]|\\.)*\'|[A-Za-z_][A-Za-z_0-9]*|\.?[0-9]([eEpP][+-]|[A-Za-z_0-9.])*|##|#|<<=|>>=|<<|>>|<=|>=|==|!=|&&|\|\||\+\+|--|->|\+=|-=|\*=|/=|%=|&=|\|=|\^=|\.\.\.|[-+*/%&|^~!<>=?:;,.(){}\[\]])')
 
 class T:
     __slots__ = ("v", "hs", "sp")
@@ -36,7 +36,7 @@ def stringify(toks):
     for i, t in enumerate(toks):
         if i and t.sp: s += " "
         v = t.v
-        if v.startswith('"'):
+        if v.startswith('"') or v.startswith("'"):
             v = v.replace("\\", "\\\\").replace('"', '\\"')
         s += v
     return '"' + s + '"'
@@ -48,12 +48,19 @@ def paste(a, b):
         raise ValueError("invalid paste %r" % v)
     return T(v, a.hs & b.hs, a.sp)
 
+COUNTER = [0]           # value of the predefined macro __COUNTER__ (reset per translation unit)
+
+
 def expand(ts, macros):
     """ts: list of T. returns fully expanded list"""
     out = []
     ts = list(ts)
     while ts:
         t = ts.pop(0)
+        if t.v == "__COUNTER__" and "__COUNTER__" not in t.hs:
+            out.append(T(str(COUNTER[0]), t.hs, t.sp))
+            COUNTER[0] += 1
+            continue
         m = macros.get(t.v) if is_ident(t.v) else None
         if m is None or t.v in t.hs:
             out.append(t); continue
@@ -92,6 +99,7 @@ def subst(m, args, hs, macros):
     res = []
     i = 0
     params = m.params or []
+    expanded = {}
     def arg_of(t):
         return args[params.index(t.v)] if t.v in params else None
     while i < len(body):
@@ -120,7 +128,10 @@ def subst(m, args, hs, macros):
                 if cp: cp[0].sp = t.sp
                 res.extend(cp)
             else:
-                ex = expand([T(x.v, x.hs, x.sp) for x in a], macros)
+                k = params.index(t.v)
+                if k not in expanded:                 # an argument is completely macro replaced once (6.10.3.1)
+                    expanded[k] = expand([T(x.v, x.hs, x.sp) for x in a], macros)
+                ex = [T(x.v, x.hs, x.sp) for x in expanded[k]]
                 if ex: ex[0].sp = t.sp
                 res.extend(ex)
             i += 1; continue
@@ -145,26 +156,61 @@ def _eval_if(text, macros):
             out.append(ts[i])
             i += 1
     ex = expand(out, macros)
-    py = []
+    toks = []
     for t in ex:
         v = t.v
         if is_ident(v):
-            v = "0"
+            toks.append(0)
         elif re.match(r"[0-9]+[uUlL]*$", v):
-            v = str(int(re.match(r"[0-9]+", v).group(0)))
-        elif v == "&&":
-            v = " and "
-        elif v == "||":
-            v = " or "
-        elif v == "!":
-            v = " not "
-        elif v not in ("(", ")", "==", "!=", "<", ">", "<=", ">=", "+", "-", "*"):
+            toks.append(int(re.match(r"[0-9]+", v).group(0)))
+        elif v in ("(", ")", "==", "!=", "<", ">", "<=", ">=", "+", "-", "*", "&&", "||", "!"):
+            toks.append(v)
+        else:
             raise ValueError("unsupported token in #if: %r" % v)
-        py.append(v)
-    return int(bool(eval(" ".join(py), {"__builtins__": {}}, {})))
+    pos = [0]
+    PREC = {"||": 1, "&&": 2, "==": 3, "!=": 3, "<": 4, ">": 4, "<=": 4, ">=": 4, "+": 5, "-": 5, "*": 6}
+
+    def peek():
+        return toks[pos[0]] if pos[0] < len(toks) else None
+
+    def take():
+        pos[0] += 1
+        return toks[pos[0] - 1]
+
+    def unary():
+        t = take()
+        if t == "!":
+            return int(not unary())
+        if t == "-":
+            return -unary()
+        if t == "+":
+            return unary()
+        if t == "(":
+            v = binary(1)
+            if take() != ")":
+                raise ValueError("expected )")
+            return v
+        if isinstance(t, int):
+            return t
+        raise ValueError("unexpected %r in #if" % (t,))
+
+    def binary(minp):
+        lhs = unary()
+        while isinstance(peek(), str) and peek() in PREC and PREC[peek()] >= minp:
+            op = take()
+            rhs = binary(PREC[op] + 1)
+            lhs = {"||": lambda: int(bool(lhs) or bool(rhs)), "&&": lambda: int(bool(lhs) and bool(rhs)), "==": lambda: int(lhs == rhs), "!=": lambda: int(lhs != rhs),
+                   "<": lambda: int(lhs < rhs), ">": lambda: int(lhs > rhs), "<=": lambda: int(lhs <= rhs), ">=": lambda: int(lhs >= rhs),
+                   "+": lambda: lhs + rhs, "-": lambda: lhs - rhs, "*": lambda: lhs * rhs}[op]()
+        return lhs
+    v = binary(1)
+    if pos[0] != len(toks):
+        raise ValueError("trailing tokens in #if")
+    return int(bool(v))
 
 
 def preprocess(src):
+    COUNTER[0] = 0
     macros, out = {}, []
     pending = []
     stack = []            # per open #if: [this group active, some group already taken, enclosing active]
@@ -225,7 +271,10 @@ def preprocess(src):
             else:
                 raise ValueError("unsupported directive %r" % word)
         elif active():
-            pending.extend(lex(line))
+            ts = lex(line)
+            if ts and pending:
+                ts[0].sp = True          # a new-line inside a macro invocation is white space
+            pending.extend(ts)
     flush()
     if stack:
         raise ValueError("unterminated conditional")
